@@ -586,8 +586,42 @@ pub fn check(w: &Workload, which: Prop, cx: &mut Cx) -> vcore::Res {
 #[derive(Serialize, Deserialize, Debug, Clone, Copy, PartialEq)]
 pub enum Ctx {
     PlainThread,
+    /// inside a task spawned on a multi-thread runtime (a worker thread)
     TokioMultiThread,
     TokioCurrentThread,
+    /// in the ROOT future of a multi-thread runtime's `block_on`: an ordinary thread that is inside the runtime now
+    /// and may be inside another one (or none) later
+    TokioMultiThreadRoot,
+}
+
+impl Ctx {
+    pub fn name(self) -> &'static str {
+        match self {
+            Ctx::PlainThread => "plain-thread",
+            Ctx::TokioMultiThread => "tokio-multi-thread",
+            Ctx::TokioCurrentThread => "tokio-current-thread",
+            Ctx::TokioMultiThreadRoot => "tokio-multi-thread-root",
+        }
+    }
+
+    /// Run `f` on the calling thread in this context.
+    pub fn run<R: Send + 'static>(self, f: impl FnOnce() -> R + Send + 'static) -> R {
+        match self {
+            Ctx::PlainThread => f(),
+            Ctx::TokioMultiThread => {
+                let rt = tokio::runtime::Builder::new_multi_thread().worker_threads(2).enable_all().build().unwrap();
+                rt.block_on(async move { tokio::spawn(async move { f() }).await.unwrap_or_else(|e| std::panic::resume_unwind(e.into_panic())) })
+            }
+            Ctx::TokioCurrentThread => {
+                let rt = tokio::runtime::Builder::new_current_thread().enable_all().build().unwrap();
+                rt.block_on(async move { f() })
+            }
+            Ctx::TokioMultiThreadRoot => {
+                let rt = tokio::runtime::Builder::new_multi_thread().worker_threads(1).enable_all().build().unwrap();
+                rt.block_on(async move { f() })
+            }
+        }
+    }
 }
 
 #[derive(Serialize, Deserialize, Debug, Clone, Copy, PartialEq)]
@@ -611,11 +645,19 @@ pub struct BlockingCase {
     /// completes on its own): 1 = Duration::MAX, 2 = u64::MAX seconds, 3 = i64::MAX seconds, 4 = 2^62 seconds
     #[serde(default)]
     pub huge: u8,
+    /// the calling contexts the SAME thread made a (trivial, zero-timeout) blocking call from before the judged one,
+    /// in order: "from any calling context" includes a thread that was inside another runtime a moment ago
+    #[serde(default)]
+    pub before: Vec<Ctx>,
+}
+
+fn any_ctx() -> impl Strategy<Value = Ctx> {
+    prop_oneof![Just(Ctx::PlainThread), Just(Ctx::TokioMultiThread), Just(Ctx::TokioCurrentThread), Just(Ctx::TokioMultiThreadRoot)]
 }
 
 pub fn blocking_case() -> impl Strategy<Value = BlockingCase> {
     (
-        prop_oneof![Just(Ctx::PlainThread), Just(Ctx::TokioMultiThread), Just(Ctx::TokioCurrentThread)],
+        prop_oneof![3 => Just(Ctx::PlainThread), 3 => Just(Ctx::TokioMultiThread), 3 => Just(Ctx::TokioCurrentThread), 2 => Just(Ctx::TokioMultiThreadRoot)],
         prop_oneof![3 => Just(RecvState::Live), 2 => Just(RecvState::Stalled), 1 => Just(RecvState::NeverStarted), 1 => Just(RecvState::Dropped)],
         any::<bool>(),
         prop_oneof![4 => Just(true), 1 => Just(false)],
@@ -623,8 +665,9 @@ pub fn blocking_case() -> impl Strategy<Value = BlockingCase> {
         1u8..4,
         0u8..6,
         prop_oneof![3 => Just(0u8), 2 => 1u8..5],
+        prop_oneof![3 => Just(Vec::new()), 2 => prop::collection::vec(any_ctx(), 1..3)],
     )
-        .prop_map(|(ctx, recv, flush, tokio_entry, ms, cap, prefill, huge)| BlockingCase { ctx, recv, flush, tokio_entry, ms, cap, prefill, huge: if recv == RecvState::Live { huge } else { 0 } })
+        .prop_map(|(ctx, recv, flush, tokio_entry, ms, cap, prefill, huge, before)| BlockingCase { ctx, recv, flush, tokio_entry, ms, cap, prefill, huge: if recv == RecvState::Live { huge } else { 0 }, before })
 }
 
 /// The call must return (no panic, no deadlock): `true`/`Ok` when the work completed, `false`/`Err(item)`
@@ -660,7 +703,11 @@ pub fn check_blocking(c: &BlockingCase, cx: &mut Cx) -> vcore::Res {
         Ctx::PlainThread => "ctx:plain-thread",
         Ctx::TokioMultiThread => "ctx:tokio-multi-thread",
         Ctx::TokioCurrentThread => "ctx:tokio-current-thread",
+        Ctx::TokioMultiThreadRoot => "ctx:tokio-multi-thread-root",
     });
+    cx.class_if(!c.before.is_empty(), "ctx:same-thread-called-from-another-context-before");
+    cx.class_if(c.before.iter().any(|b| *b != c.ctx && *b != Ctx::PlainThread) && c.ctx != Ctx::PlainThread, "ctx:same-thread-was-inside-a-different-runtime-before");
+    cx.class_if(c.before.contains(&Ctx::TokioMultiThreadRoot) && c.ctx == Ctx::TokioCurrentThread, "ctx:multi-thread-root-then-current-thread-on-one-thread");
     cx.class(match c.recv {
         RecvState::Live => "recv:live",
         RecvState::Stalled => "recv:stalled",
@@ -692,16 +739,17 @@ pub fn check_blocking(c: &BlockingCase, cx: &mut Cx) -> vcore::Res {
         }
     };
     let ctx = c.ctx;
-    let h = std::thread::spawn(move || match ctx {
-        Ctx::PlainThread => call(),
-        Ctx::TokioMultiThread => {
-            let rt = tokio::runtime::Builder::new_multi_thread().worker_threads(2).enable_all().build().unwrap();
-            rt.block_on(async move { tokio::spawn(async move { call() }).await.unwrap_or_else(|e| std::panic::resume_unwind(e.into_panic())) })
+    let before = c.before.clone();
+    let h = std::thread::spawn(move || {
+        // earlier calls of the same thread from other contexts: a trivial flush of an idle channel of its own
+        for b in before {
+            b.run(|| {
+                let (s, _r) = emit_batcher::bounded::<Ch>(1);
+                let _ = emit_batcher::tokio::blocking_flush(&s, Duration::ZERO);
+                let _ = emit_batcher::tokio::blocking_send(&s, 1, Duration::ZERO);
+            });
         }
-        Ctx::TokioCurrentThread => {
-            let rt = tokio::runtime::Builder::new_current_thread().enable_all().build().unwrap();
-            rt.block_on(async move { call() })
-        }
+        ctx.run(call)
     });
     let res = join_within(h, Duration::from_secs(30));
     // release everything
@@ -717,7 +765,7 @@ pub fn check_blocking(c: &BlockingCase, cx: &mut Cx) -> vcore::Res {
         )),
         Some(Err(payload)) => {
             let msg = payload_msg(&payload);
-            let ctx_name = match c.ctx { Ctx::PlainThread => "plain-thread", Ctx::TokioMultiThread => "tokio-multi-thread", Ctx::TokioCurrentThread => "tokio-current-thread" };
+            let ctx_name = c.ctx.name();
             if c.flush {
                 Err(Fail::new(format!("C08/blocking-call-panicked/{ctx_name}"), format!("{c:?}: the call panicked: {msg}")))
             } else {
